@@ -308,6 +308,27 @@ static void gen(rng &r, const std::string &tier)
             bytes f = ref_frame(a, p);
             printf("feed %s %d %s\n", codec, cap, hex(f).c_str());
         }
+        // (4c) garbage that is a marker-delimited, non-empty segment whose running CRC-8 comes back to
+        // the seed FF (or to 0: a segment that "checks" although it is no frame of ours), then frames:
+        // a receiver that tells "nothing received yet" from the CRC value instead of from the line
+        // swallows the delimiter and glues the segment to the next frame
+        for (int rep = 0; rep < (th ? 400 : 60); rep++)
+        {
+            int cap = (int)r.range(6, 24);
+            bytes seg = rnd_payload(r, a, 1 + r.below(4));
+            for (auto &x : seg) if (x == a.start || x == a.stop || x == a.stub) x = 0x33;
+            uint8_t want = (rep % 3 == 2) ? 0x00 : 0xFF;
+            for (int x = 0; x < 256; x++)
+            {
+                seg.back() = (uint8_t)x;
+                if (x != a.start && x != a.stop && x != a.stub && ref_crc8(seg) == want) break;
+            }
+            bytes g = {a.start};
+            g.insert(g.end(), seg.begin(), seg.end());
+            if (rep % 2) g.push_back(a.stop);
+            printf("resync %s %d %s %s %s %s\n", codec, cap, hex(g).c_str(), hex(rnd_payload(r, a, r.below(4))).c_str(),
+                   hex(rnd_payload(r, a, r.below(4))).c_str(), hex(rnd_payload(r, a, r.below(4))).c_str());
+        }
         // (4) garbage prefix followed by well-formed frames (and an over-long one now and then)
         for (int rep = 0; rep < (th ? 2000 : 250); rep++)
         {
